@@ -258,11 +258,18 @@ def gen_case_abort(seed, i):
     # line 0, where the header cell "a" is the bad cell
     line = r.randint(1, nrec - 1) if r.random() < 0.75 else 0
     recs = [["a", "b"]] + [[("x" if j == line else str(j)), r.choice(["p", "q"])] for j in range(1, nrec)]
+    # one case in five aborts outside any match component: the collect() function names a column the record on `line` does not
+    # have, and the exception leaves CsvPath.next() itself; only CsvPaths' own handler sees it
+    outside = line > 0 and r.random() < 0.2
+    if outside:
+        recs[line] = ["x"]
     members = []
     for j in range(n):
         if j == k:
             mp = r.choice(['add(#a, 1) push("seen", line_number())', 'push("seen", line_number()) @t = add(#a, 1)',
                            'yes() -> multiply(#a, 2)'])
+            if outside:
+                mp = r.choice(['collect("b") yes()', "collect(1)", 'yes() collect("a", "b")'])
             scan = "*" if line == 0 else "1*"
         else:
             mp = r.choice(['#b == "p" push("s", #a)', "yes()", "@c = count()", 'print("l $.csvpath.line_number")', 'yes() line_number() == 1 -> stop()'])
@@ -270,6 +277,8 @@ def gen_case_abort(seed, i):
             scan = r.choice(["1*", "1*", "*", "0-1", "1", "0"])   # bounds inside every generated file
         members.append({"match": mp, "ident": r.choice([None, f"m{j}"]), "scan": scan})
     method = r.choice(["collect_paths", "fast_forward_paths", "next_paths", "collect_by_line", "next_by_line", "fast_forward_by_line"])
+    if outside:
+        method = r.choice(["collect_paths", "next_paths", "collect_by_line", "next_by_line"])   # the methods that narrow lines
     follow = r.choice(["collect_paths", "collect_by_line", "fast_forward_paths"])
     # the raise policy alone, or together with the other flags (stop and fail also mark the csvpath before the exception leaves)
     policy = r.choice([["raise", "collect"], ["raise", "collect"], ["raise", "collect", "stop"], ["raise", "collect", "stop", "fail", "print"],
